@@ -131,6 +131,10 @@ func buildCases(st map[string]int) []Case {
 			forms := []string{"error"}
 			if s < 50000 {
 				forms = []string{"response", "error"}
+			} else if s == 50004 || s == 50002 || s == 50001 {
+				// a subsystem failure whose cause is itself a platform error (the store's queue was full when the coroutine
+				// submitted): the outcome is the outer one
+				forms = []string{"error", "error-nested"}
 			}
 			for _, form := range forms {
 				shapes := []string{"full"}
@@ -177,6 +181,9 @@ func buildCases(st map[string]int) []Case {
 		cases = append(cases, Case{Endpoint: "cursor:" + k, Kind: k, Mode: "cursor", Status: 0, Producible: true})
 	}
 	cases = append(cases, Case{Endpoint: "auth:http", Kind: "CreatePromise", Mode: "auth", Status: 20100, Producible: true})
+	for _, proto := range []string{"http", "grpc"} {
+		cases = append(cases, Case{Endpoint: "abandon:" + proto, Kind: "AcquireLock", Mode: "abandon", Status: 20100, Producible: true})
+	}
 	// request translation: every kind, several generated contents
 	for i := 0; i < 40; i++ {
 		for _, k := range kindsInOrder {
@@ -254,7 +261,7 @@ func main() {
 		if *prop == "C05" && !(c.Mode == "reqid" && c.Kind == "CreateSubscription") {
 			continue // C05 uses the front ends only for what they do to overlapping registrations
 		}
-		if *prop == "C09" && !(c.Mode == "reqid" && c.Kind == "AcquireLock") {
+		if *prop == "C09" && !((c.Mode == "reqid" || c.Mode == "abandon") && c.Kind == "AcquireLock") {
 			continue // C09: ... and to overlapping acquire requests of different executions
 		}
 		if *prop == "C10" && !(c.Mode == "translate" && c.Kind == "CreateSchedule") {
@@ -267,7 +274,7 @@ func main() {
 			continue // C12: a reply later than the configured timeout is still a reply
 		}
 		c03kind := c.Kind == "CreatePromise" || c.Kind == "CreatePromiseAndTask" || c.Kind == "CompletePromise" || c.Kind == "CreateSchedule"
-		if *prop == "C03" && !(c03kind && (c.Mode == "translate" || (c.Mode == "status" && !c.Slow && (c.Status == 20000 || c.Status == 20100)))) {
+		if *prop == "C03" && !(c03kind && (c.Mode == "translate" || (c.Mode == "status" && !c.Slow && c.Status < 50000))) {
 			continue // C03 uses the front ends only for what they do to idempotency keys and the strict flag, and for how "done now" (201) and "already done, acknowledged" (200) are told apart in the reply
 		}
 		if i%*nshards == *shard {
@@ -307,7 +314,7 @@ func main() {
 		}
 		rep.Hit("endpoint." + c.Endpoint)
 		for i, p := range r.Problems {
-			if *prop == "C03" && !strings.HasPrefix(r.Sig[i], "translate:idempotency-fields:") && !strings.HasPrefix(r.Sig[i], "grpc-flag:noop:") && !strings.HasPrefix(r.Sig[i], "http-status:") {
+			if *prop == "C03" && !strings.HasPrefix(r.Sig[i], "translate:idempotency-fields:") && !strings.HasPrefix(r.Sig[i], "grpc-flag:noop:") && !strings.HasPrefix(r.Sig[i], "http-status:") && !strings.HasPrefix(r.Sig[i], "grpc-code:") {
 				continue
 			}
 			record(c, r.Sig[i], fmt.Sprintf("%s status %d (%s, %s/%s): %s", c.Endpoint, c.Status, c.Name, c.Form, c.Shape, p))
